@@ -26,7 +26,9 @@ RULE = ('pseudo-observation arrays X (n,2): samples of Clayton/Frank/Gumbel draw
         '(one pair of points swapped) or sliding windows of one long sample, visited forwards and backwards in one '
         'process; after every call theta is compared with a harness-side calibration of that data set\'s own tau; STRONGLY NEGATIVE '
         'dependence (tau in {-.5,-.8,-.9,-.95,-.98}; reflected Clayton, Frank and Gaussian-copula draws from harness '
-        'samplers) in tie and search: Frank theta against the harness calibration and, by the Debye function, back to tau; an '
+        'samplers) in tie and search: Frank theta against the harness calibration and, by the Debye function, back to tau; NEAR-EQUAL '
+        'data (distinct values of a column 1e-9..1e-12 apart, 1e-9-jittered clusters, 1e-18*rank far tails, n = 30000 '
+        'continuous) in tie and search: tau bit-equal to scipy kendalltau of the RAW columns and to the harness tau-b; an '
         'ALIASING batch (8 calls on harness-sampled arrays covering all three families, all results kept and re-checked: '
         'unchanged, pairwise distinct objects, equal to a second call on the same X); and LARGE-n cases (n = 10000, '
         '12000, 20001 from harness-side samplers): _compute_empirical against the definition over all rows (1e-12) and '
@@ -260,6 +262,9 @@ def datasets(ctx, grid, stream, nfam, nsmall, nbad, sizes):
     for k, tau in enumerate(NEGATIVE_TAUS):           # strongly negative dependence: Frank's solver far from its start
         samp = NEGATIVE_SAMPLERS[rng.randrange(len(NEGATIVE_SAMPLERS))]
         out.append((f'negative-{samp}', negative_sample(samp, tau, rng.choice([150, 300, 600]), rng.randrange(2 ** 31))))
+    for kind, n, seed in NEAR_EQUAL:                   # distinct values of a column closer than 1e-8
+        if n <= 400:
+            out.append((f'nearequal-{kind}', near_equal_dataset(kind, n, rng.randrange(2 ** 31))))
     for _ in range(nsmall):
         out.append(adversarial(rng, grid))
     for _ in range(nbad):
@@ -525,7 +530,7 @@ def run(ctx, lean):
     names = ['corr:grid', 'corr:select', 'corr:calibration', 'corr:candidates', 'corr:empirical',
              'corr:candidate-curves', 'corr:decision', 'corr:alias']
     if lean is None:
-        for n in names + ['corr:rank-argmax-semantics', 'corr:empirical-large-n']:
+        for n in names + ['corr:rank-argmax-semantics', 'corr:empirical-large-n', 'corr:tau-raw-columns']:
             ctx.ob(n, False, 'tie', 'driver unavailable')
         return
     from copulas.utils import EPSILON
@@ -554,6 +559,7 @@ def run(ctx, lean):
     for n in names[1:]:
         ctx.ob(n, n not in t.bad, 'tie', t.bad.get(n, 'ok'))
     large_n_tie(ctx, lean, grid)
+    raw_tau_tie(ctx)
 
 
 # ----------------------------------------------------------------------------------- oracle on real code
@@ -976,6 +982,135 @@ def negative_tau_oracle(ctx):
     return sum(negative_tau_case(ctx, spec) for spec in sorted(negative_tau_specs(), key=lambda sp: sp[1]))
 
 
+# ----------------------------------------------------------------------------------- tau of the RAW columns
+def own_tau_b(x, y):
+    """Kendall's tau-b of the raw values, by the harness alone: from the definition (all pairs) for n <= 2500, by
+    Knight's O(n log n) counting (Fenwick tree) above; integer counts, one final float expression."""
+    x = np.asarray(x, dtype=float)
+    y = np.asarray(y, dtype=float)
+    n = len(x)
+    tot = n * (n - 1) // 2
+    if n <= 2500:
+        dx = np.sign(x[:, None] - x[None, :]).astype(np.int64)
+        dy = np.sign(y[:, None] - y[None, :]).astype(np.int64)
+        iu = np.triu_indices(n, 1)
+        s = int((dx[iu] * dy[iu]).sum())
+        xt = int((dx[iu] == 0).sum())
+        yt = int((dy[iu] == 0).sum())
+    else:
+        def tied_pairs(keys):
+            _, c = np.unique(keys, return_counts=True, axis=0)
+            return int((c * (c - 1) // 2).sum())
+        xt, yt = tied_pairs(x), tied_pairs(y)
+        jt = tied_pairs(np.column_stack((x, y)))
+        order = np.lexsort((y, x))
+        ry = np.unique(y[order], return_inverse=True)[1] + 1          # ranks 1..m of y in (x, y) order
+        m = int(ry.max())
+        tree = [0] * (m + 1)
+        dis = 0
+        for k, r in enumerate(ry.tolist()):                          # inversions: earlier entries with larger y
+            i, le = r, 0
+            while i > 0:
+                le += tree[i]
+                i -= i & -i
+            dis += k - le
+            i = r
+            while i <= m:
+                tree[i] += 1
+                i += i & -i
+        s = tot - xt - yt + jt - 2 * dis
+    if tot - xt == 0 or tot - yt == 0:
+        return NAN
+    return float(s / np.sqrt(tot - xt) / np.sqrt(tot - yt))
+
+
+NEAR_EQUAL = (('pairs-u', 400, 4101), ('pairs-v', 400, 4102), ('pairs-both', 400, 4103), ('clusters', 400, 4104),
+              ('clusters', 250, 4105), ('far-tail', 300, 4106), ('large', 30000, 4107))
+
+
+def near_equal_dataset(kind, n, seed):
+    """finely resolved pseudo-observations: distinct values of a column closer than 1e-8."""
+    r = np.random.RandomState(seed)
+    if kind == 'large':
+        return own_sample('clayton', 0.5, n, seed)
+    if kind == 'far-tail':
+        X = own_sample('gumbel', 0.5, n, seed)
+        return np.column_stack([1e-18 * (np.argsort(np.argsort(X[:, j])) + 1) for j in (0, 1)])
+    if kind == 'clusters':
+        k = r.randint(0, 6, size=n)
+        centres = np.array([0.1, 0.25, 0.4, 0.6, 0.75, 0.9])
+        k2 = np.clip(k + r.choice([-1, 0, 0, 1], size=n), 0, 5)
+        return np.column_stack((centres[k] + 1e-9 * r.uniform(size=n), centres[k2] + 1e-9 * r.uniform(size=n)))
+    X = own_sample('clayton', 0.5, n, seed)
+    cols = {'pairs-u': (0,), 'pairs-v': (1,), 'pairs-both': (0, 1)}[kind]
+    idx = r.permutation(n)[:160].reshape(80, 2)
+    for t, (i, j) in enumerate(idx):
+        for c in cols:
+            X[j, c] = X[i, c] + (1e-9, 1e-10, 1e-12)[t % 3] * (1 if t % 2 else -1)
+    return np.clip(X, 1e-12, 1.0 - 1e-12)
+
+
+def raw_tau_case(ctx, spec):
+    """select_copula(X).tau is scipy's kendalltau of the RAW columns, exactly, and the harness's own tau-b of the raw
+    values; theta is the returned family's calibration of THAT tau."""
+    from copulas.bivariate import select_copula
+    from scipy import stats
+    kind, n, seed = spec
+    X = near_equal_dataset(kind, n, seed)
+    inp = {'dataset': 'near-equal:' + kind, 'n': n, 'seed': seed, 'generator': 'c11.near_equal_dataset'}
+    cls = 'select_copula:tau-not-kendall-of-raw-columns'
+    req = 'result.tau == scipy.stats.kendalltau(X[:,0], X[:,1])[0] bit for bit (= tau-b of the raw values, 1e-15), and ' \
+          'theta is the returned family\'s calibration of that tau'
+    with np.errstate(all='ignore'):
+        tau = stats.kendalltau(X[:, 0], X[:, 1])[0]
+    own = own_tau_b(X[:, 0], X[:, 1])
+    ctx.count('raw-tau:' + kind)
+    try:
+        with np.errstate(all='ignore'):
+            r = select_copula(X)
+    except Exception as e:  # noqa
+        ctx.fail_input('copulas.bivariate.select_copula', inp,
+                       {'raises': f'{type(e).__name__}: {e}', 'kendalltau_raw': float(tau), 'own_tau_b': own}, req, cls)
+        return 1
+    fam = fam_of(r)
+    obs = {'family': fam, 'tau': float(r.tau), 'theta': float(r.theta), 'kendalltau_raw': float(tau), 'own_tau_b': own,
+           'tau_minus_raw': float(r.tau) - float(tau)}
+    ok = same(r.tau, tau) and abs(float(r.tau) - own) <= 1e-15
+    if ok:
+        if fam == 'clayton':
+            ref = float(2 * tau / (1 - tau))
+        elif fam == 'gumbel':
+            ref = float(1 / (1 - tau))
+        else:
+            ref = frank_theta_independent(np.float64(tau))
+        obs['calibration_of_raw_tau'] = ref
+        ok = same(r.theta, ref) or abs(float(r.theta) - ref) <= 1e-9 * abs(ref)
+    if not ok:
+        ctx.fail_input('copulas.bivariate.select_copula', inp, obs, req, cls)
+    return 3
+
+
+def raw_tau_oracle(ctx):
+    return sum(raw_tau_case(ctx, spec) for spec in NEAR_EQUAL)
+
+
+def raw_tau_tie(ctx):
+    """the tau the model receives as `FitInput.tau` (kendalltau of the raw columns) is the tau `Frank.fit` stores."""
+    from scipy import stats
+    bad = None
+    for kind, n, seed in NEAR_EQUAL:
+        X = near_equal_dataset(kind, n, seed)
+        with np.errstate(all='ignore'):
+            tau = stats.kendalltau(X[:, 0], X[:, 1])[0]
+        own = own_tau_b(X[:, 0], X[:, 1])
+        f, err = real_fit(X)
+        ctx.case(('near-equal', kind, n, seed), nontrivial=True)
+        if (err is not None or not same(f.tau, tau) or abs(float(f.tau) - own) > 1e-15) and bad is None:
+            bad = {'dataset': kind, 'n': n, 'seed': seed, 'Frank.fit': err or float(f.tau), 'kendalltau_raw': float(tau),
+                   'own_tau_b': own}
+    ctx.ob('corr:tau-raw-columns', bad is None, 'tie', bad or 'ok')
+
+
 RECOVERY_TAUS = (0.3, 0.5, 0.7)
 RECOVERY_N = 3000
 RECOVERY_SEEDS = 10
@@ -1007,6 +1142,7 @@ def search(ctx, deep):
     checks += aliasing_oracle(ctx)
     checks += large_n_oracle(ctx)
     checks += negative_tau_oracle(ctx)
+    checks += raw_tau_oracle(ctx)
     cells = {}
     if deep:
         rng = ctx.rng('recovery')
@@ -1037,6 +1173,9 @@ def replay(ctx, payload):
         return sum(1 for g in got if g == fam) < 0.7 * len(got)
     if cls == 'select_copula:result-aliased-across-calls' and 'batch' in inp:
         aliasing_oracle(ctx, tuple(tuple(b) for b in inp['batch']))
+        return any(f['class'] == cls for f in ctx.failing[before:])
+    if cls == 'select_copula:tau-not-kendall-of-raw-columns' and 'seed' in inp:
+        raw_tau_case(ctx, (inp['dataset'].split(':', 1)[1], inp['n'], inp['seed']))
         return any(f['class'] == cls for f in ctx.failing[before:])
     if cls.endswith(':negative-tau') and 'seed' in inp:
         negative_tau_case(ctx, (inp['sampler'].replace('harness ', ''), inp['nominal_tau'], inp['n'], inp['seed']))
